@@ -152,15 +152,23 @@ def one(rng, k):
         elif kind == 'regdump':
             nchips = rng.randint(0, 4)
             payload = encode.u32(nchips)
+            heads, regids = [], []
             for _ in range(nchips):
                 m = rng.choice(MODELS + ['%08x' % rng.randrange(1 << 32)])
                 nregs = rng.randint(0, 6)
-                payload += list(bytes.fromhex(m)) + [rng.randrange(256), rng.randrange(256), rng.randrange(256)] + encode.u32(nregs)
+                head = list(bytes.fromhex(m)) + [rng.randrange(256), rng.randrange(256), rng.randrange(256)]
+                if heads and rng.random() < .35:        # a layout may name the same chip again
+                    head = list(rng.choice(heads))
+                heads.append(head)
+                payload += head + encode.u32(nregs)
                 for _ in range(nregs):
                     rid = rng.choice(['abcdef', '000001', '1a2b3c', '%06x' % rng.randrange(1 << 24)])
                     size = rng.choice([1, 2, 7, 8, 255, rng.randrange(1, 40)])
-                    payload += list(bytes.fromhex(rid)) + [rng.choice([0, 1, 7, 255, rng.randrange(256)]), size] \
-                        + [rng.randrange(256) for _ in range(size)]
+                    ident = list(bytes.fromhex(rid)) + [rng.choice([0, 1, 7, 255, rng.randrange(256)])]
+                    if regids and rng.random() < .25:   # ... and the same register again
+                        ident = list(rng.choice(regids))
+                    regids.append(ident)
+                    payload += ident + [size] + [rng.randrange(256) for _ in range(size)]
             out = json.loads(ud.parseUDToJson(2, 1, memoryview(bytes(payload))))['Register Dump']
             rec['payload'] = payload
             rec['lines'] = [cp(x) for x in out]
